@@ -63,6 +63,13 @@ CHECKS["C11"] = {
     "technique": "Kani/CBMC exhaustive-by-symbolic-execution word codec round trips",
 }
 
+CHECKS["C15"] = {
+    "text": "BOUNDED STAND-IN (not a proof, labelled as such): the real HBox::pack is run on every list of up to 3 nodes over 22 node templates x 9 targets x {exact, additional} and compared with an executable transcription of TeX.2021.649-667 that keeps one total per order of infinity. Neither Verus (array/slice patterns, Rc<dyn> in the node enum) nor Kani (does not finish on the enum's drop glue) can take the function, so no obligation is counted as discharged.",
+    "design_ref": "DESIGN.md §5 C15",
+    "note": "Bound: list length <= 3, dimensions from a fixed template set. Found and repaired two genuine defects (width/height swapped for boxes and rules; glue order taken from zero/cancelling totals).",
+    "technique": "bounded exhaustive check of the function's contract (stand-in where the deductive verifiers cannot reach)",
+}
+
 NOT_APPLICABLE = {
     "C01": "not built yet",
     "C02": "not built yet",
